@@ -226,7 +226,9 @@ func c08prop(r *simkit.Run) {
 	} else {
 		secureByProto := supplied["X-Forwarded-Proto"] == "https" || supplied["X-Forwarded-Proto"] == "wss"
 		switch {
-		case tlsOn && (secureByProto || supplied["X-Forwarded-Proto"] == ""):
+		case tlsOn:
+			// the port header was not supplied, so it describes the incoming connection, which is TLS -
+			// whatever protocol an upstream proxy claimed for its own hop
 			expectOne("X-Forwarded-Port", is("443"), "443")
 		case !tlsOn && !secureByProto:
 			expectOne("X-Forwarded-Port", is("80"), "80")
